@@ -26,7 +26,7 @@ BUDGET = {
     'thorough': {'enum': ['small'], 'hyp': 160000, 'shards': 16},
 }
 
-VALUES = [1, -1, 's', 'long', None, 2.5, [1], {'k': 1}, {'k': 's'}, {}, True]
+VALUES = [1, -1, 's', 'long', None, 2.5, [1], {'k': 1}, {'k': 's'}, {}, True, {'c': {'a': 1}, 'l': 's'}, {'l': 's', 'c': {'a': 1}}, {'c': {'a': 1}, 'l': 2}, {'c': {'a': {'b': 1}}, 'd': {'e': 's'}}]
 
 
 def enumerate_cases(tier, scope):
@@ -42,7 +42,7 @@ def enumerate_cases(tier, scope):
             for pa in ports:
                 tree = pm.ns({'a': pa, 'sub': pm.ns({'q': pm.port(required=False, valid_type='int')}, **sub)}, **top)
                 for path in paths:
-                    for value in (1, 's', -1, {'k': 1}):
+                    for value in (1, 's', -1, {'k': 1}, {'c': {'a': 1}, 'l': 's'}, {'c': {'a': 1}, 'l': 2}):
                         yield {'spec': tree, 'emissions': [[path, value]], 'ret': 0}
                 yield {'spec': tree, 'emissions': [['a', 1], ['sub.q', 2]], 'ret': 5}
                 yield {'spec': tree, 'emissions': [], 'ret': 5}
